@@ -482,7 +482,7 @@ func exact(mv *data_model.MultiValue, sf float64) bool {
 
 // ---------- row level ----------
 
-var rowMetrics = []int32{1, 2, 77, format.BuiltinMetricIDIngestionStatus, format.BuiltinMetricIDAgentSamplingFactor, format.BuiltinMetricIDAggMappingCreated, format.BuiltinMetricIDBadges, format.BuiltinMetricIDContributorsLog, -1000000}
+var rowMetrics = []int32{1, 2, 77, 101, 102, 103, 104, 105, 106, 107, 103, 105, format.BuiltinMetricIDIngestionStatus, format.BuiltinMetricIDAgentSamplingFactor, format.BuiltinMetricIDAggMappingCreated, format.BuiltinMetricIDBadges, format.BuiltinMetricIDContributorsLog, -1000000}
 
 var builtinIDsCache []int32
 
